@@ -185,10 +185,15 @@ fn check_message(flavour: &str, msg: &str, kind: &RKind, loc: &Path, payload_see
     }
     if let Some(sugg) = &fx.suggestion {
         // wording-free: every accepted alternative is quoted exactly once, the due suggestion once more
-        if let RKind::UnknownKey { accepted, .. } | RKind::UnknownValue { accepted, .. } = kind {
+        if let RKind::UnknownKey { key: received, accepted } | RKind::UnknownValue { value: received, accepted } = kind {
             let path_txt = if json_flavour { render_json(loc) } else { render_query(loc) };
             for a in accepted {
                 if accepted.iter().filter(|x| *x == a).count() > 1 || *a == path_txt {
+                    continue;
+                }
+                // a received string that contains the name (e.g. "x`label") can complete a quoted `label` of its own
+                // in the message: occurrences of such names cannot be counted
+                if received.contains(a.as_str()) || accepted.iter().any(|b| b != a && b.contains(a.as_str())) {
                     continue;
                 }
                 let n = msg.matches(&format!("`{a}`")).count();
